@@ -11,6 +11,7 @@ import (
 	"github.com/mimecast/dtail/internal/lcontext"
 	"github.com/mimecast/dtail/internal/omode"
 	user "github.com/mimecast/dtail/internal/user/server"
+	"github.com/mimecast/dtail/internal/verifhook"
 )
 
 // ServerHandler implements the Reader and Writer interfaces to handle
@@ -59,6 +60,7 @@ func (h *ServerHandler) handleUserCommand(ctx context.Context, ltx lcontext.LCon
 
 	dlog.Server.Debug(h.user, "Handling user command", argc, args)
 	h.incrementActiveCommands()
+	verifhook.At("handler.command", h, commandName)
 	commandFinished := func() {
 		if h.decrementActiveCommands() == 0 {
 			h.shutdown()
